@@ -389,3 +389,25 @@ class PurityMonitor:
     def flush(self):
         v, self.violations = self.violations, []
         return v
+
+
+def through_disk(ctx, obj, cls, binary, suffix, read_kwargs=None, as_pathlib=False):
+    """Write `obj` to a real file given by *path* (str or pathlib.Path) and read it back with cls.read(path):
+    the branch of the file classes that opens the file itself.  Returns (object read back, raw content)."""
+    import pathlib
+    work = os.environ.get("VERIF_WORK") or os.getcwd()
+    path = os.path.join(work, "disk-%d-%d%s" % (os.getpid(), getattr(ctx, "index", 0) or 0, suffix))
+    target = pathlib.Path(path) if as_pathlib else path
+    ctx.op("%s.write(path)" % cls.__name__)
+    try:
+        obj.write(target)
+        with open(path, "rb" if binary else "r", **({} if binary else {"newline": ""})) as fh:
+            raw = fh.read()
+        ctx.op("%s.read(path)" % cls.__name__)
+        back = cls.read(target, **(read_kwargs or {}))
+    finally:
+        try:
+            os.remove(path)
+        except OSError:
+            pass
+    return back, raw
